@@ -318,6 +318,13 @@ def nuts_trace(c):
             hmc.add_single_qp_to_tree, hmc.merge_trees, hmc.is_euclidean_uturn, hmc.iterative_build_tree = o_add, o_merge, o_ut, o_it
         rec["final"] = dict(w=float(tree.logweight), cand=index[tkey(tree.proposal_candidate)], depth=int(tree.depth),
                             left=index[tkey(tree.left)], right=index[tkey(tree.right)])
+        # the same tree through the lax control-flow primitives (what the chains compile): must be the same tree
+        t2 = hmc.generate_nuts_tree(qp0, random.PRNGKey(c["key"]), eps, c["depth"], s.stepper, s.potential_energy,
+                                    s.kinetic_energy, s.inverse_mass_matrix, bias_transition=c["bias"])
+        rec["lax"] = dict(w=float(t2.logweight), depth=int(t2.depth), cand=vec(t2.proposal_candidate), left=vec(t2.left),
+                          right=vec(t2.right), turning=bool(t2.turning))
+        rec["final"].update(cand_vec=vec(tree.proposal_candidate), left_vec=vec(tree.left), right_vec=vec(tree.right),
+                            turning=bool(tree.turning))
         return rec
     from core.ctx import canon
     k = ("nuts", canon(c))
@@ -388,6 +395,13 @@ def _oracle_nuts(case):
                 f"sub-trees", dict(sig, what="final_weight"))
     if f["cand"] not in merged:
         return ("the proposed sample is not a leaf of the accepted tree", dict(sig, what="final_candidate"))
+    lx = r["lax"]
+    same = (lx["depth"] == f["depth"] and lx["turning"] == f["turning"] and abs(lx["w"] - f["w"]) <= 1e-9 * max(1.0, abs(f["w"]))
+            and all(np.max(np.abs(lx[k] - f[k + "_vec"])) <= 1e-9 * max(1.0, np.max(np.abs(f[k + "_vec"])))
+                    for k in ("cand", "left", "right")))
+    if not same:
+        return ("generate_nuts_tree with lax control-flow primitives builds a different tree than with Python control flow "
+                f"(depth {lx['depth']} vs {f['depth']}, log-weight {lx['w']!r} vs {f['w']!r})", dict(sig, what="lax_vs_python"))
     return None
 
 
